@@ -5,7 +5,7 @@
    records_of = what must be delivered, defined from the syntax tree alone (Spec/RdbRecords.v);
    load_all = the model of Header / NextBinEntry* / Footer (Model/Rdb.v). *)
 From RS Require Import Base.Bytes Base.Endian Spec.Crc64 Gen.Crc64 Gen.Rdb Model.Digest Model.Rdb
-  Spec.RdbFormat Spec.RdbRecords Proofs.RdbProofs Proofs.DigestProofs Proofs.SplitProofs.
+  Spec.RdbFormat Spec.RdbRecords Proofs.RdbProofs Proofs.DigestProofs Proofs.SplitProofs Model.Lzf Proofs.LzfSpec.
 Open Scope N_scope.
 
 (* Every well-formed file of version 1..9 whose hashes stay below the chunk limit: the parser
@@ -46,6 +46,21 @@ Theorem C01_chunks_partition : forall limit cap ps,
   concat (chunks (S (length ps)) limit cap ps) = ps /\
   Forall (fun c => c <> []) (chunks (S (length ps)) limit cap ps).
 Proof. exact (fun limit cap ps => chunks_partition limit (S (length ps)) cap ps (Nat.le_succ_diag_r _)). Qed.
+
+(* LZF-compressed strings (keys, script bodies): what the decompressor of the model MEANS, given
+   independently of its state machine. A stream is a sequence of tokens - a literal run of 1..32
+   bytes or a back-reference (distance 1..8192, length 3..264) copied byte by byte from the
+   output written so far, so a reference longer than its distance repeats the pattern it is
+   writing (runs, "abab...") - and the machine decodes the encoding of every well-formed token
+   sequence to exactly its expansion; e.g. one literal byte followed by a distance-1 reference
+   of length n is a run of n+1 equal bytes. *)
+Theorem C01_lzf_is_lz77 : forall ts,
+  wf_toks ts [] -> lzf_decompress (concat (map enc_tok ts)) (lenN' (expand ts [])) = Some (expand ts []).
+Proof. exact lzf_decompress_spec. Qed.
+
+Theorem C01_lzf_overlapping_run : forall c n, 3 <= n <= 264 ->
+  lzf_decompress (enc_tok (TLit [c]) ++ enc_tok (TBack 1 n)) (1 + n) = Some (repeat c (S (N.to_nat n))).
+Proof. exact lzf_run_spec. Qed.
 
 (* the limit in the source, and the opcode / type constants the model is written with *)
 Theorem C01_constants :
@@ -112,6 +127,8 @@ Print Assumptions C01_parse_exact.
 Print Assumptions C01_parse_exact_split.
 Print Assumptions C01_hash_records_cover.
 Print Assumptions C01_chunks_partition.
+Print Assumptions C01_lzf_is_lz77.
+Print Assumptions C01_lzf_overlapping_run.
 Print Assumptions C01_constants.
 Print Assumptions C01_payload_is_valid_dump.
 Print Assumptions C01_value_bytes_exact.
